@@ -28,6 +28,7 @@
 
 // local sources
 #include "dbgroup/thread/id_manager.hpp"
+#include "dbgroup/verif/hooks.hpp"
 
 namespace dbgroup::thread
 {
@@ -80,6 +81,7 @@ EpochManager::GetProtectedEpochs()  //
     -> std::pair<EpochGuard, const std::vector<size_t> &>
 {
   auto &&guard = CreateEpochGuard();
+  DBGROUP_VERIF_POINT(kEpochGuardCreated, this);
   const auto e = guard.GetProtectedEpoch();
   const auto &protected_epochs = ProtectedNode::GetProtectedEpochs(e, protected_lists_);
 
@@ -92,6 +94,7 @@ EpochManager::CreateEpochGuard()  //
 {
   auto &tls = tls_fields_[IDManager::GetThreadID()];
   if (tls.heartbeat.expired()) {
+    DBGROUP_VERIF_POINT(kEpochBindHeartbeat, this);
     tls.epoch.SetGrobalEpoch(&global_epoch_);
     tls.heartbeat = IDManager::GetHeartBeat();
   }
@@ -102,6 +105,7 @@ EpochManager::CreateEpochGuard()  //
 void
 EpochManager::ForwardGlobalEpoch()
 {
+  DBGROUP_VERIF_POINT(kEpochForwardBegin, this);
   const auto cur_epoch = global_epoch_.load(std::memory_order_relaxed);
   const auto next_epoch = cur_epoch + 1;
 
@@ -113,11 +117,14 @@ EpochManager::ForwardGlobalEpoch()
   // update protected epoch values
   auto &protected_epochs = ProtectedNode::GetProtectedEpochs(next_epoch, protected_lists_);
   CollectProtectedEpochs(cur_epoch, protected_epochs);
+  DBGROUP_VERIF_POINT(kEpochForwardCollected, this);
   RemoveOutDatedLists(protected_epochs);
+  DBGROUP_VERIF_POINT(kEpochForwardRetired, this);
 
   // store the max/min epoch values for efficiency
   global_epoch_.store(next_epoch, std::memory_order_release);
   min_epoch_.store(protected_epochs.back(), std::memory_order_relaxed);
+  DBGROUP_VERIF_POINT(kEpochForwardEnd, this);
 }
 
 /*##############################################################################
